@@ -245,3 +245,143 @@ Lemma ignoring_closed_not_sound : ~ sound binning_equal_ignoring_closed.
 Proof.
   intros H. specialize (H (Some (e12, true)) (Some (e12, false)) eq_refl). vm_compute in H. discriminate.
 Qed.
+
+(* ---------- catalogs: a vector of per-patch states ---------- *)
+Lemma nth_error_upd_nth {A} (f : A -> A) : forall (l : list A) q p,
+  nth_error (upd_nth q f l) p = option_map (fun x => if (q =? p)%nat then f x else x) (nth_error l p).
+Proof.
+  induction l as [|x l IH]; intros q p; simpl.
+  - destruct p; reflexivity.
+  - destruct q as [|q], p as [|p]; simpl; try reflexivity.
+    + destruct (nth_error l p); reflexivity.
+    + apply IH.
+Qed.
+
+Lemma upd_nth_length {A} (f : A -> A) : forall (l : list A) q, length (upd_nth q f l) = length l.
+Proof. induction l as [|x l IH]; intros [|q]; simpl; try reflexivity. rewrite IH. reflexivity. Qed.
+
+Section AnyDecisionC.
+  Context (eq : obinning -> obinning -> bool).
+
+  (* every patch goes through its own projection of a catalog-level operation *)
+  Lemma cstep_with_nth cs o p :
+    nth_error (cstep_with eq cs o) p = option_map (fun s => step_with eq s (proj p o)) (nth_error cs p).
+  Proof.
+    destruct o as [o|q b f]; unfold cstep_with, proj.
+    - apply nth_error_map.
+    - rewrite nth_error_upd_nth. destruct (nth_error cs p) as [s|]; [|reflexivity]. simpl.
+      destruct (q =? p)%nat; reflexivity.
+  Qed.
+
+  Lemma crun_with_nth h : forall cs p,
+    nth_error (crun_with eq h cs) p = option_map (run_with eq (map (proj p) h)) (nth_error cs p).
+  Proof.
+    unfold crun_with, run_with. induction h as [|o h IH]; intros cs p; simpl.
+    - destruct (nth_error cs p); reflexivity.
+    - rewrite IH, cstep_with_nth. destruct (nth_error cs p); reflexivity.
+  Qed.
+
+  Lemma cstep_with_length cs o : length (cstep_with eq cs o) = length cs.
+  Proof. destruct o; simpl; [apply map_length|apply upd_nth_length]. Qed.
+
+  Lemma crun_with_length h : forall cs, length (crun_with eq h cs) = length cs.
+  Proof.
+    unfold crun_with. induction h as [|o h IH]; intros cs; simpl; [reflexivity|].
+    rewrite IH. apply cstep_with_length.
+  Qed.
+
+  Lemma crun_with_preserves_inv h cs : Forall Inv cs -> Forall Inv (crun_with eq h cs).
+  Proof.
+    intros HI. apply Forall_forall. intros s Hin. apply In_nth_error in Hin as [p Hp].
+    rewrite crun_with_nth in Hp. destruct (nth_error cs p) as [s0|] eqn:E; [|discriminate].
+    simpl in Hp. injection Hp as <-. apply run_with_preserves_inv.
+    apply (proj1 (Forall_forall _ _) HI). eapply nth_error_In. exact E.
+  Qed.
+
+  (* after ANY catalog-level history, including builds of single patches that leave the patches
+     of one catalog with trees for DIFFERENT binnings, a catalog-wide unforced request [o]
+     (a build or a measurement) leaves in EVERY patch the trees of the requested binning *)
+  Lemma catalog_request_with o b :
+    sound eq -> (forall s, step_with eq s o = build_with eq b false s) ->
+    forall h cs, Forall Inv cs ->
+    Forall (fun s => trees_used s = built_for b) (crun_with eq (h ++ [All o]) cs).
+  Proof.
+    intros Hs Hstep h cs HI. apply Forall_forall. intros s Hin.
+    apply In_nth_error in Hin as [p Hp]. rewrite crun_with_nth in Hp.
+    destruct (nth_error cs p) as [s0|] eqn:E; [|discriminate]. simpl in Hp. injection Hp as <-.
+    rewrite map_app, run_with_app. simpl map. unfold run_with at 1. cbn [fold_left].
+    rewrite Hstep.
+    apply build_with_trees; [exact Hs|]. apply run_with_preserves_inv.
+    apply (proj1 (Forall_forall _ _) HI). eapply nth_error_In. exact E.
+  Qed.
+
+  Theorem catalog_history_independent_with :
+    sound eq -> forall h b cs, valid_ob b = true -> Forall Inv cs ->
+    Forall (fun s => trees_used s = built_for b) (crun_with eq (h ++ [All (Build b false)]) cs).
+  Proof.
+    intros Hs h b cs Hv HI. apply (catalog_request_with (Build b false) b Hs); [|exact HI].
+    intros s. unfold step_with. rewrite Hv. reflexivity.
+  Qed.
+End AnyDecisionC.
+
+Theorem crun_nth h cs p :
+  nth_error (crun h cs) p = option_map (run (map (proj p) h)) (nth_error cs p).
+Proof. apply crun_with_nth. Qed.
+
+Theorem crun_length h cs : length (crun h cs) = length cs.
+Proof. apply crun_with_length. Qed.
+
+Theorem crun_preserves_inv h cs : Forall Inv cs -> Forall Inv (crun h cs).
+Proof. apply crun_with_preserves_inv. Qed.
+
+Lemma inv_c_fresh n : Forall Inv (c_fresh n).
+Proof. apply Forall_forall. intros s H. apply repeat_spec in H. subst. exact inv_fresh. Qed.
+
+Theorem catalog_history_independent h b cs :
+  valid_ob b = true -> Forall Inv cs ->
+  Forall (fun s => trees_used s = built_for b) (crun (h ++ [All (Build b false)]) cs).
+Proof. apply catalog_history_independent_with. exact binning_equal_sound. Qed.
+
+Theorem catalog_measurement_history_independent h c r cs :
+  valid_edges (c_edges c) = true -> Forall Inv cs ->
+  Forall (fun s => trees_used s = built_for (role_binning c r)) (crun (h ++ [All (Measure c r)]) cs).
+Proof.
+  intros Hv HI.
+  apply (catalog_request_with binning_equal (Measure c r) (role_binning c r) binning_equal_sound);
+    [| exact HI].
+  intros s. unfold step_with. rewrite Hv. reflexivity.
+Qed.
+
+Lemma map_const_repeat {A B} (f : A -> B) c (l : list A) :
+  Forall (fun x => f x = c) l -> map f l = repeat c (length l).
+Proof. induction 1 as [|x l Hx _ IH]; simpl; [reflexivity|]. rewrite Hx, IH. reflexivity. Qed.
+
+(* ... patch by patch the trees of a freshly created catalog cache with as many patches *)
+Corollary catalog_history_independent_fresh h b cs :
+  valid_ob b = true -> Forall Inv cs ->
+  map trees_used (crun (h ++ [All (Build b false)]) cs) =
+  map trees_used (crun [All (Build b false)] (c_fresh (length cs))).
+Proof.
+  intros Hv HI.
+  rewrite (map_const_repeat trees_used (built_for b) _ (catalog_history_independent h b cs Hv HI)).
+  pose proof (catalog_history_independent [] b (c_fresh (length cs)) Hv (inv_c_fresh _)) as F.
+  simpl app in F. rewrite (map_const_repeat trees_used (built_for b) _ F).
+  rewrite !crun_length. unfold c_fresh. rewrite repeat_length. reflexivity.
+Qed.
+
+(* not vacuous at catalog level: the first-patch shortcut.  Both patches hold (1,2]; patch 0 alone
+   is rebuilt for (1,3/2]; the catalog-wide unforced build for (1,3/2] then sees a matching first
+   patch and leaves patch 1 with the trees for (1,2] (a record at z = 2 is in the stale bin only) *)
+Theorem first_patch_shortcut_unsound :
+  exists h b cs, valid_ob b = true /\ Forall Inv cs /\
+    exists s, In s (fold_left cstep_first_patch_shortcut (h ++ [All (Build b false)]) cs) /\
+      trees_used s <> built_for b /\
+      exists zs, option_map (fun t => tree_counts t zs) (trees_used s) <> Some (tree_counts b zs).
+Proof.
+  exists [All (Build (Some (e12, false)) false); One 0 (Some ([1; 3 # 2], false)) false],
+         (Some ([1; 3 # 2], false)), (c_fresh 2).
+  split; [reflexivity|]. split; [apply inv_c_fresh|].
+  eexists. split; [vm_compute; right; left; reflexivity|]. split.
+  - vm_compute. discriminate.
+  - exists [2]. vm_compute. discriminate.
+Qed.
